@@ -746,7 +746,7 @@ def report(run, stream, bad, cases, outs):
             continue
         seen.add(sig)
         n += 1
-        if n > 4:
+        if n > 6:
             break
         run.violation(f"C17:{canon(cases[i])}",
                       f"exported SimInput is not a complete and faithful image of the Sim (stream {stream}): "
